@@ -22,3 +22,28 @@ package entity
 //@   at call ExpandPrefix#1 before
 //@     assert [C13:absolute-http-uris-are-never-read-as-compact-identifiers] !hasPrefix(id, "http")
 //@     ghost curieBranchG := true
+
+// ---------------------------------------------------------------------------
+// C12 / C13: the internal id of a compact identifier is read under the id key of that very identifier (store.GetCurieKey) in
+// the caller's transaction and decoded as the big-endian number the write path stored; a failed read yields an error and no
+// id. The compactor computes the reference keys it deletes from these ids.
+//@ assumed errors.WithMessagef
+//@   pure
+//@   ensures err != nil ==> result != nil
+//@ unit (entity.Lookup).InternalIDForCURIE
+//@   prop C12 C13
+//@   ghost keyG slice
+//@   ghost readErrG iface
+//@   ensures [C12,C13:a-failed-read-yields-an-error-and-no-id] readErrG != nil ==> ret1 != nil && ret0 == 0
+//@   ghost valG []uint8
+//@   ensures [C12,C13:the-id-handed-back-is-the-big-endian-number-stored-under-the-key] ret1 == nil ==> ret0 == encBE64(valG, 0)
+//@   at $1 return
+//@     ghost valG := val
+//@   at call GetCurieKey#1 before
+//@     assert [C12,C13:the-id-key-is-built-for-the-identifier-asked-for] $arg0 == curie
+//@   at call GetCurieKey#1
+//@     ghost keyG := $result
+//@   at call Get#1 before
+//@     assert [C12,C13:the-id-is-read-under-the-key-of-the-identifier-asked-for-in-the-callers-transaction] $arg0 == txn && key == keyG
+//@   at call Get#1
+//@     ghost readErrG := $result1
